@@ -58,12 +58,12 @@ class Ob:
     """One obligation = one harness configuration = one CBMC run."""
     def __init__(s, name, harness, real=(), defines=None, unwind=6, unwindset=None, stubs=None, flags=(),
                  desc='', bounds='', tiers=('quick', 'thorough'), thorough=None, timeout=None, mem=None,
-                 diff=None, throw_assert=False, checks=False, expect_unreached=(), extra_c=(), encodes=(), caps=None, unwind_rules=()):
+                 diff=None, throw_assert=False, checks=False, expect_unreached=(), extra_c=(), encodes=(), caps=None, unwind_rules=(), noinline=False):
         s.name = name; s.harness = harness; s.real = list(real); s.defines = dict(defines or {})
         s.unwind = unwind; s.unwindset = dict(unwindset or {}); s.stubs = dict(stubs or {}); s.flags = list(flags)
         s.desc = desc; s.bounds = bounds; s.tiers = tiers; s.thorough = thorough or {}
         s.timeout = timeout; s.mem = mem; s.diff = diff; s.throw_assert = throw_assert; s.checks = checks
-        s.unwind_rules = list(unwind_rules); s.caps = caps; s.expect_unreached = set(expect_unreached); s.extra_c = list(extra_c); s.encodes = list(encodes)
+        s.noinline = noinline; s.unwind_rules = list(unwind_rules); s.caps = caps; s.expect_unreached = set(expect_unreached); s.extra_c = list(extra_c); s.encodes = list(encodes)
 
     def for_tier(s, tier):
         if tier == 'thorough' and s.thorough:
@@ -87,7 +87,7 @@ def build_ir(ob, W):
     srcs = [os.path.join(VERIF, 'harness', ob.harness)] + [os.path.join(SRC, r) for r in ob.real]
     for i, src in enumerate(srcs):
         out = os.path.join(W, 'tu%d.ll' % i)
-        cmd = ['clang++-14'] + CLANG_FLAGS + inc_flags() + define_flags(ob.defines, ob) + ['-S', '-emit-llvm', src, '-o', out]
+        cmd = ['clang++-14'] + CLANG_FLAGS + (['-fno-inline'] if ob.noinline else []) + inc_flags() + define_flags(ob.defines, ob) + ['-S', '-emit-llvm', src, '-o', out]   # -fno-inline: a cut (--stub) function must not have been inlined into its callers
         rc, so, se, dt = run(cmd, timeout=300)
         if rc != 0: raise RuntimeError('clang failed on %s:\n%s' % (src, se[-3000:]))
         lls.append(out)
@@ -301,7 +301,7 @@ def decide(prop, ob, tier, seed, workroot, keep=False):
     t0 = time.time()
     W = os.path.join(workroot, ob.name); os.makedirs(W, exist_ok=True)
     R = dict(name=ob.name, desc=ob.desc, bounds=ob.bounds, harness=ob.harness, real_tus=ob.real, defines=ob.defines,
-             unwind=ob.unwind, status='error', detail='', violations=[], known=[], props=0, proved=0, reach=0,
+             unwind=ob.unwind, status='error', detail='', violations=[], known=[], props=0, proved=0, reach=0, asserts_proved=0,
              functions=[], cbmc_s=0.0, rss_kb=0, diff=None, stubs=ob.stubs)
     try:
         norm = build_ir(ob, W)
@@ -336,7 +336,7 @@ def decide(prop, ob, tier, seed, workroot, keep=False):
                 if st == 'FAILURE': R['reach'] += 1
                 elif line not in ob.expect_unreached: unreached.append(line)
             elif kind == 'vassert':
-                if st == 'SUCCESS': R['proved'] += 1
+                if st == 'SUCCESS': R['proved'] += 1; R['asserts_proved'] += 1
                 else: failed_asserts.append((r['property'], line, r.get('description', '')))
             elif kind == 'unwind':
                 if st == 'SUCCESS': R['proved'] += 1
@@ -468,7 +468,7 @@ def main():
     if errors:
         for r in errors: print('ERROR %s %s: %s' % (r['status'], r['name'], r['detail'][:1500]))
         sys.exit(2)
-    print('%s: %d obligations, all proved within bounds (%.0fs)' % (a.prop, len(results), wall))
+    print('%s: %d obligations, all proved within bounds%s (%.0fs)' % (a.prop, len(results), ' except %d known finding(s) listed above' % len(known) if known else '', wall))
     sys.exit(0)
 
 
@@ -476,19 +476,19 @@ def write_evidence(prop, tier, seed, results, wall, viol, known, errors):
     import obligations
     meta = obligations.META.get(prop, {})
     evals = sum(r['props'] for r in results)
-    nontriv = sum(1 for r in results if r['status'] == 'ok' and r['reach'] > 0)
+    nontriv = sum(r['asserts_proved'] for r in results if r['status'] == 'ok' and r['reach'] > 0)
     funcs = sorted(set(f for r in results for f in r['functions']))
     real_funcs = [f for f in funcs if not f.startswith(('harness', '_ZN3std', '_ZNSt', '_ZNKSt', '_ZSt', '_ZN9__gnu_cxx', '_ZNK9__gnu_cxx'))]
     samples = []
     for r in results:
         samples.append(dict(obligation=r['name'], what=r['desc'], bounds=r['bounds'], harness=r['harness'], real_tus=r['real_tus'],
                             defines=r['defines'], unwind=r['unwind'], status=r['status'], solver_properties=r['props'],
-                            proved=r['proved'], witnesses_reached=r['reach'], cbmc_s=r['cbmc_s'], peak_rss_kb=r['rss_kb'],
+                            proved=r['proved'], harness_assertions_proved=r['asserts_proved'], witnesses_reached=r['reach'], cbmc_s=r['cbmc_s'], peak_rss_kb=r['rss_kb'],
                             translator_diff=r['diff'], functions_encoded=len(r['functions']), stubs=r['stubs']))
     ev = dict(property_id=prop, tier=tier, seed=seed, level=meta.get('level', 'model_checking'),
               coverage=dict(
                   evaluations=evals, distinct_nontrivial=nontriv,
-                  rule='evaluations = CBMC properties (harness assertions, reachability witnesses, unwinding assertions, memory-safety checks where enabled) decided by the SAT back end in this run over the C translation of the current /repo sources; distinct_nontrivial = obligations (distinct harness configurations, each a different entry point / operation / symbolic dimension) whose every assertion was proved AND whose reachability witnesses were all shown reachable (non-vacuous)',
+                  rule='evaluations = CBMC properties (harness assertions, reachability witnesses, unwinding assertions, memory-safety checks where enabled) decided by the SAT back end in this run over the C translation of the current /repo sources; distinct_nontrivial = distinct harness assertions (each a different clause of the property at a different entry point / operation / shape) that were proved in harness configurations whose reachability witnesses were all shown reachable (non-vacuous); coverage.obligations counts the harness configurations',
                   samples=samples, obligations=len(results), discharged=sum(1 for r in results if r['status'] == 'ok'),
                   functions_encoded=real_funcs[:400], functions_encoded_count=len(funcs),
                   solver='cbmc 6.11 (CaDiCaL SAT back end), --unwinding-assertions', solver_time_s=round(sum(r['cbmc_s'] for r in results), 1),
